@@ -9,7 +9,7 @@ from ..cfg import CFG, ReachingDefs, default_exc_model
 # calls that cannot raise for the stated input domain (src: str | dict[str,str] with key "", options:
 # CompileOptions | dict of field names | None)
 TOTAL_FUNCS = {"isinstance", "hasattr", "len", "str", "bool", "int", "copy.copy", "copy.deepcopy", "dataclasses.replace",
-               "CompileOptions", "set_output_mode", "Compiler", "time", "list", "tuple", "dict", "set", "sorted", "reversed", "enumerate"}
+               "CompileOptions", "set_output_mode", "Compiler", "time", "list", "tuple", "dict", "set", "sorted", "reversed", "enumerate", "iter", "zip"}
 TOTAL_METHODS = {"strip", "lstrip", "rstrip", "startswith", "endswith", "split", "splitlines", "replace", "lower", "upper",
                  "partition", "rpartition", "removeprefix", "removesuffix", "find", "get", "items", "keys", "values", "casefold"}
 WAIT_METHODS = {"communicate", "wait"}
@@ -236,7 +236,8 @@ def r10a(repo, chk):
                         continue
                     chk.judge("R10.a", key, ok,
                               f"setattr with a name that is not proven to be a dataclass field can raise (e.g. '__class__'); guards: {g}", None, where)
-                elif f in TOTAL_FUNCS or (isinstance(c.func, ast.Attribute) and c.func.attr in TOTAL_METHODS):
+                elif f in TOTAL_FUNCS or (isinstance(c.func, ast.Attribute) and c.func.attr in TOTAL_METHODS) or (
+                        f == "map" and len(c.args) == 2 and norm(c.args[0]).startswith("str.") and norm(c.args[0])[4:] in TOTAL_METHODS):
                     if f == "CompileOptions" and c.keywords and any(k.arg is None for k in c.keywords):
                         chk.assume("compile_code(options=dict): the dict's keys are CompileOptions field names (stated input domain)")
                     # a function of the repository that the table calls total: its body must still be (assignments of its arguments, nothing
